@@ -28,7 +28,7 @@ import (
 // have taken effect - and never an older one once some call was acknowledged.
 type concCase struct {
 	Name  string
-	Tasks [][]string // per task: "A" append, "Ac" append with a cancelled context, "S<n>", "Sc<n>"
+	Tasks [][]string // per task: "A" append, "Ac" append with a cancelled context, "Ar" append with a context that another task cancels at an explored point, "S<n>", "Sc<n>"
 }
 
 func concCases(thorough bool) []concCase {
@@ -38,6 +38,9 @@ func concCases(thorough bool) []concCase {
 		{"save-5 || save-7", [][]string{{"S5"}, {"S7"}}},
 		{"append || append-cancelled || append", [][]string{{"A"}, {"Ac"}, {"A"}}},
 		{"append,save-5 || save-7-cancelled,append", [][]string{{"A", "S5"}, {"Sc7", "A"}}},
+		{"append-cancel-race || append", [][]string{{"Ar"}, {"A"}}},
+		{"append-cancel-race,append || append", [][]string{{"Ar", "A"}, {"A"}}},
+		{"append-cancel-race || append,append", [][]string{{"Ar"}, {"A", "A"}}},
 	}
 	if thorough {
 		l = append(l,
@@ -70,6 +73,20 @@ func (in *concInst) Body() {
 	bg := context.Background()
 	cctx, cancel := context.WithCancel(bg)
 	cancel()
+	rctx, rcancel := context.WithCancel(bg)
+	defer rcancel()
+	race := false
+	for _, ops := range in.c.Tasks {
+		for _, op := range ops {
+			race = race || op == "Ar"
+		}
+	}
+	if race {
+		vrt.Go(func() {
+			vrt.Point()
+			rcancel()
+		})
+	}
 	if err := st.SaveOffset(bg, "sub", "3"); err != nil {
 		vrt.MachineryFault("initial SaveOffset: %v", err)
 	}
@@ -79,17 +96,20 @@ func (in *concInst) Body() {
 			for i, op := range ops {
 				id := 10*(t+1) + i
 				ctx := bg
-				if strings.HasSuffix(op, "c") || strings.Contains(op, "c") {
+				if strings.Contains(op, "c") {
 					ctx = cctx
+				}
+				if op == "Ar" {
+					ctx = rctx
 				}
 				switch op[0] {
 				case 'A':
-					_, err := st.Append(ctx, &eventbus.Event{Type: "t", Data: json.RawMessage(fmt.Sprintf(`{"i":%d}`, id)), Timestamp: time.Unix(int64(id), 0)})
+					off, err := st.Append(ctx, &eventbus.Event{Type: "t", Data: json.RawMessage(fmt.Sprintf(`{"i":%d}`, id)), Timestamp: time.Unix(int64(id), 0)})
 					r := 0
 					if err != nil {
 						r = 1
 					}
-					in.rec.Add("append", id, r, "")
+					in.rec.Add("append", id, r, string(off))
 				case 'S':
 					var n int
 					fmt.Sscan(strings.TrimLeft(op, "Sc"), &n)
@@ -104,6 +124,14 @@ func (in *concInst) Body() {
 		})
 	}
 	vrt.Join()
+	// one more append after everything settled: it receives a larger offset than every
+	// acknowledged one
+	lastOff, lerr := st.Append(bg, &eventbus.Event{Type: "t", Data: json.RawMessage(`{"i":99}`), Timestamp: time.Unix(99, 0)})
+	if lerr != nil {
+		bad("an Append with a live context after the concurrent calls failed: %v", lerr)
+	} else {
+		in.rec.Add("append", 99, 0, string(lastOff))
+	}
 	if err := st.Close(); err != nil {
 		bad("Close failed: %v", err)
 	}
@@ -119,17 +147,30 @@ func (in *concInst) Body() {
 		return
 	}
 	cnt := map[int]int{}
+	atOff := map[string]int{}
 	for _, e := range evs {
 		var d struct{ I int }
 		json.Unmarshal(e.Data, &d)
 		cnt[d.I]++
+		atOff[string(e.Offset)] = d.I
 	}
+	num := func(o string) int { n := 0; fmt.Sscan(o, &n); return n }
+	maxAcked := 0
 	var ackedSaves, failedSaves []int
 	for _, e := range in.rec.Events() {
 		switch e.K {
 		case "append":
 			if e.B == 0 && cnt[e.A] != 1 {
 				bad("an Append that returned nil is in the log %d times after close and reopen", cnt[e.A])
+			}
+			if e.B == 0 && cnt[e.A] == 1 && atOff[e.S] != e.A {
+				bad("the offset an Append returned is not the offset its event has after close and reopen")
+			}
+			if e.B == 0 && e.A == 99 && num(e.S) <= maxAcked {
+				bad("an Append made after the concurrent calls had settled received an offset that is not larger than every offset acknowledged before")
+			}
+			if e.B == 0 && num(e.S) > maxAcked {
+				maxAcked = num(e.S)
 			}
 			if e.B == 1 && cnt[e.A] > 1 {
 				bad("a failed Append is in the log %d times", cnt[e.A])
@@ -186,9 +227,9 @@ func concScenario(cc concCase) vrt.Scenario {
 }
 
 func runConcurrent(c *h.Check) {
-	bound := 1
+	bound := 2
 	if c.Thorough() {
-		bound = 2
+		bound = 3
 	}
 	for _, cc := range concCases(c.Thorough()) {
 		if c.TimeUp() {
